@@ -60,6 +60,8 @@ impl Future for AsyncDerivedReadyFuture {
         let waker = cx.waker();
         self.source.track();
         if self.loading.load(Ordering::Relaxed) {
+            #[cfg(leptos_verif)]
+            crate::verif_yield("await:loaded");
             self.wakers.write().or_poisoned().push(waker.clone());
             Poll::Pending
         } else {
@@ -139,6 +141,8 @@ where
         pin_mut!(value);
         match (self.loading.load(Ordering::Relaxed), value.poll(cx)) {
             (true, _) => {
+                #[cfg(leptos_verif)]
+                crate::verif_yield("await:loaded");
                 self.wakers.write().or_poisoned().push(waker.clone());
                 Poll::Pending
             }
@@ -205,6 +209,8 @@ where
         pin_mut!(value);
         match (self.loading.load(Ordering::Relaxed), value.poll(cx)) {
             (true, _) => {
+                #[cfg(leptos_verif)]
+                crate::verif_yield("await:loaded");
                 self.wakers.write().or_poisoned().push(waker.clone());
                 Poll::Pending
             }
